@@ -51,7 +51,10 @@ import arim.geometry as g
 
 drv = arimgen.Driver(chk.ocaml_driver("C05"))
 rng = chk.rng
-Q = chk.tier == "quick"
+# second tie: the scalar kernels are re-translated from the current source and checked
+# convertible with the model; a broken tie deepens the correspondence run (thorough sizes)
+_ties = chk.translation_tie()
+Q = chk.tier == "quick" and all(v == "ok" for v in _ties.values())
 TOL = 1e-11
 PI = math.pi
 
